@@ -248,10 +248,12 @@ class PropertyDescriptorRelation(PredicateClassRelation):
     ) -> Iterable[PredicateClassRelation]:
         """
         Get the outgoing relations from the target that have the same property descriptor type as this relation.
+        Relations to an instance that is garbage collected but not yet removed from the graph are left out.
         """
         relation_condition = (
             lambda relation: relation.property_descriptor_cls
             is self.property_descriptor_cls
+            and relation.target.instance is not None
         )
         yield from SymbolGraph().get_outgoing_relations_with_condition(
             self.target, relation_condition
@@ -263,10 +265,12 @@ class PropertyDescriptorRelation(PredicateClassRelation):
     ) -> Iterable[PredicateClassRelation]:
         """
         Get the incoming relations from the source that have the same property descriptor type as this relation.
+        Relations from an instance that is garbage collected but not yet removed from the graph are left out.
         """
         relation_condition = (
             lambda relation: relation.property_descriptor_cls
             is self.property_descriptor_cls
+            and relation.source.instance is not None
         )
         yield from SymbolGraph().get_incoming_relations_with_condition(
             self.source, relation_condition
